@@ -190,6 +190,7 @@ class C01(Check):
         ctx.phase(self.oracle_streams, ctx)
         ctx.phase(self.oracle_validation, ctx)
         ctx.phase(self.oracle_lexemes, ctx)
+        ctx.phase(self.oracle_extremes, ctx)
         ctx.phase(self.oracle_depth, ctx)
         ctx.phase(self.oracle_width, ctx)
 
@@ -345,6 +346,18 @@ class C01(Check):
         for n in ([48] if ctx.tier_counts == 'quick' else [24, 48, 96, 400]):
             for t in G.lexeme_cases(n, rng, per=(12 if ctx.tier_counts == 'quick' else None)):
                 cases.append({'kind': 'lexeme', 'text': t, 'comments': True, 'validate': True, 'fetch': 'none'})
+        self.judge(ctx, cases, limit=15.0)
+
+    # -- oracle: extreme numbers and malformed URLs ------------------------------------------------------
+    def oracle_extremes(self, ctx):
+        """numbers float arithmetic cannot hold (OverflowError, inf, nan) in every numeric slot, and URLs which the URL
+        library refuses (ValueError) in every URL slot, with a parent href so that relative resolution runs"""
+        cases = []
+        for t in G.extreme_cases():
+            for va in (True, False):
+                cases.append({'kind': 'extreme', 'text': t, 'comments': True, 'validate': va, 'fetch': 'none',
+                              'href': 'http://example.org/css/main.css'})
+                cases.append({'kind': 'extreme', 'text': t, 'comments': True, 'validate': va, 'fetch': 'nonenone'})
         self.judge(ctx, cases, limit=15.0)
 
     # -- oracle: depth ---------------------------------------------------------------------------------
